@@ -13,7 +13,7 @@ cd $WT
 git apply "$SRC/patch.diff" || { echo "patch does not apply"; exit 2; }
 base=$( (CARGO_NET_OFFLINE=true cargo test --offline $FEAT --lib 2>&1; CARGO_NET_OFFLINE=true cargo test --offline $FEAT --doc 2>&1) | grep -E "^test result" | tr '\n' ' ')
 mkdir -p tests && cp "$SRC/demo.rs" tests/demo.rs
-with=$(CARGO_NET_OFFLINE=true cargo test --offline $FEAT --test demo 2>&1 | grep -E "^test result" | tr '\n' ' ')
+with=$(CARGO_NET_OFFLINE=true cargo test --offline $FEAT --test demo 2>&1 | grep -E "^test result|signal: |SIGABRT|stack overflow" | tr '\n' ' ')
 git checkout -q -- src
 without=$(CARGO_NET_OFFLINE=true cargo test --offline $FEAT --test demo 2>&1 | grep -E "^test result" | tr '\n' ' ')
 echo "existing tests with patch: $base"
@@ -22,7 +22,7 @@ echo "demo without patch: $without"
 ok=1
 echo "$base" | grep -q "FAILED\|failed; [1-9]" && ok=0
 echo "$base" | grep -q "ok\." || ok=0
-echo "$with" | grep -q "FAILED" || ok=0
+echo "$with" | grep -q "FAILED\|signal: \|SIGABRT\|stack overflow" || ok=0
 echo "$without" | grep -q "FAILED" && ok=0
 echo "$without" | grep -q "ok\." || ok=0
 cd /
